@@ -108,7 +108,7 @@ pub fn exec_history(ops: &str) -> String {
                     Err(_) => "e".into(),
                 },
                 "s" => {
-                    cpu.vh_set_state_sum(h(rest) as usize);
+                    cpu.vh_set_state_sum(u64::from_str_radix(rest, 16).unwrap_or(0) as usize);
                     "k".into()
                 }
                 _ => "bad".into(),
@@ -299,7 +299,18 @@ impl Mode for BusMode {
                     let len = rng.range(1, 64);
                     let (o1, o2) = (port_ops(p1), port_ops(p2));
                     let mut h: Vec<String> = Vec::new();
-                    let mut t = 0u64;
+                    // time stamps are the full state count: histories also start just below 2^31, 2^32, 2^53 and far beyond, so that
+                    // the count crosses those widths while messages are being emitted
+                    let mut t = match rng.below(8) {
+                        0 => (1u64 << 32) - rng.below(150000),
+                        1 => (1u64 << 31) - rng.below(150000),
+                        2 => (1u64 << 53) - rng.below(150000),
+                        3 => *rng.pick(&[1u64 << 32, (1 << 32) + 5, 1 << 40, (1 << 62) + 12345, (1 << 33) - 1]),
+                        _ => 0,
+                    };
+                    if t != 0 {
+                        h.push(format!("s{:x}", t));
+                    }
                     for _ in 0..len {
                         if rng.chance(1, 6) {
                             t += rng.below(100000);
